@@ -1,21 +1,22 @@
 #!/bin/bash
-# run every seeded defect (worktrees /tmp/mut/Cxx = first wave, /tmp/mut2/Cxx = second wave 'b') against its own property's quick check;
-# writes seeded/RESULTS.tsv: seeded-id, property, exit, discharged/obligations, correspondence cases, disagreements, oracle evaluations, violations, verdict line
+# tools/mtest_matrix.sh [ids…] — run every stored seeded defect (/verif/seeded/<id>/patch.diff, applied to a fresh scratch worktree of
+# /repo, removed afterwards) against its own property's quick check; rewrites seeded/RESULTS.tsv:
+# seeded-id, property, exit, discharged/obligations, correspondence cases, disagreements, oracle evaluations, violations, verdict line
 out=/verif/seeded/RESULTS.tsv
-echo -e "seeded\tproperty\texit\tobligations\tcorr_cases\tcorr_disagreements\toracle_evals\toracle_violations\tverdict" > $out
-for w in /tmp/mut /tmp/mut2; do
-  for d in $w/C??; do
-    [ -f $d/patch.diff ] || continue
-    p=$(basename $d); id=$p; [ $w = /tmp/mut2 ] && id=${p}b
-    log=$(TAILN=400 /verif/tools/mtest.sh $d $p 2>&1)
-    line=$(echo "$log" | grep -E "^$p quick seed" | tail -1)
-    verdict=$(echo "$log" | grep -E "^VIOLATION" | tail -1 | sed 's/replay=[^ ]*//')
-    ex=$(echo "$line" | sed -n 's/.*-> exit \([0-9]\).*/\1/p')
-    ob=$(echo "$line" | sed -n 's/.*obligations \([0-9]*\/[0-9]*\).*/\1/p')
-    cc=$(echo "$line" | sed -n 's/.*correspondence \([0-9]*\) cases.*/\1/p')
-    cd_=$(echo "$line" | sed -n 's/.*cases (\([0-9]*\) disagreements.*/\1/p')
-    oe=$(echo "$line" | sed -n 's/.*oracle \([0-9]*\) evaluations.*/\1/p')
-    ov=$(echo "$line" | sed -n 's/.*evaluations (\([0-9]*\) violations.*/\1/p')
-    echo -e "$id\t$p\t$ex\t$ob\t$cc\t$cd_\t$oe\t$ov\t$verdict" >> $out
-  done
+ids="$@"; [ -z "$ids" ] && ids=$(ls /verif/seeded | grep -E '^C[0-9][0-9][a-z]?$')
+[ $# -eq 0 ] && echo -e "seeded\tproperty\texit\tobligations\tcorr_cases\tcorr_disagreements\toracle_evals\toracle_violations\tverdict" > $out
+for id in $ids; do
+  p=${id:0:3}
+  log=$(TAILN=400 /verif/tools/mtest_patch.sh $id $p 2>&1)
+  line=$(echo "$log" | grep -E "^$p quick seed" | tail -1)
+  verdict=$(echo "$log" | grep -E "^VIOLATION" | tail -1 | sed 's/replay=[^ ]*//')
+  ex=$(echo "$line" | sed -n 's/.*-> exit \([0-9]\).*/\1/p')
+  ob=$(echo "$line" | sed -n 's/.*obligations \([0-9]*\/[0-9]*\).*/\1/p')
+  cc=$(echo "$line" | sed -n 's/.*correspondence \([0-9]*\) cases.*/\1/p')
+  cd_=$(echo "$line" | sed -n 's/.*cases (\([0-9]*\) disagreements.*/\1/p')
+  oe=$(echo "$line" | sed -n 's/.*oracle \([0-9]*\) evaluations.*/\1/p')
+  ov=$(echo "$line" | sed -n 's/.*evaluations (\([0-9]*\) violations.*/\1/p')
+  grep -v "^$id	" $out > $out.tmp; mv $out.tmp $out
+  echo -e "$id\t$p\t$ex\t$ob\t$cc\t$cd_\t$oe\t$ov\t$verdict" >> $out
+  echo "$id exit=$ex ob=$ob corr=$cc/$cd_ oracle=$oe/$ov $verdict"
 done
